@@ -310,7 +310,7 @@ def run(ctx):
         # predicate talks about (Witnesses in Routine.tla) is reached, and prints them in a POSTCONDITION
         fs = [ex.submit(witness_run, ctx, 'Routine_witness.cfg', 'w', range(1, 23)),
               ex.submit(witness_run, ctx, 'Routine_witness2.cfg', 'w2', range(23, NWITNESS + 1))]
-        for sel in ((1, 2, 3, 4, 6, 7) if thorough else (1, 2, 3, 4, 7)):
+        for sel in ((1, 2, 3, 4, 6, 9) if thorough else (1, 2, 3, 4, 7)):
             fs.append(ex.submit(model_check_in, ctx, 'p%d' % sel, 'Routine',
                                 'Routine_p%d%s.cfg' % (sel, '_thorough' if thorough else ''),
                                 timeout=1800, workers=4 if thorough else 3, label='bodies p%d' % sel))
@@ -328,7 +328,7 @@ def run(ctx):
                  + exhaustive_cases(('tryfin', 'trycatch'), 3, reduced=True))
     nrand = 6000 if thorough else 500
     cases += [random_case(rnd, rnd.randint(15, 60), clocky=(i % 3 == 0)) for i in range(nrand)]
-    for sel in ((1, 2, 3, 4, 6, 7) if thorough else (1, 2, 3, 4, 7)):
+    for sel in ((1, 2, 3, 4, 6, 9) if thorough else (1, 2, 3, 4, 9)):
         cases += sim_cases(ctx, sel, 1500 if thorough else 120, 14, ctx.seed + sel)
     ph['generate+simulate'] = round(time.time() - t0, 1)
     traces = run_cases(ctx, cases)
